@@ -262,6 +262,129 @@ func body(k cfg) func(c *drv.Ctx) {
 	}
 }
 
+// ---- purge gate: the persister is parked (public event callback, EventKindPurgerCheck) right
+// before it removes old data; meanwhile a file merge is introduced (its new file is named by no
+// committed snapshot yet) and a batch is introduced on top; then the purge runs. The merged file is
+// needed by the current root and must survive.
+
+type purgeGateT struct {
+	armed   bool
+	parked  chan int
+	release chan int
+}
+
+var purgeGate *purgeGateT
+
+func init() {
+	scorch.RegistryEventCallbacks["verif-c12-purge-gate"] = func(e scorch.Event) bool {
+		if g := purgeGate; g != nil && g.armed && e.Kind == scorch.EventKindPurgerCheck {
+			g.armed = false
+			vrt.Send(g.parked, 1)
+			vrt.Recv(g.release)
+		}
+		return true
+	}
+}
+
+func bodyPurgeGate(k cfg) func(c *drv.Ctx) {
+	return func(c *drv.Ctx) {
+		base := c.Dir + "/idx"
+		store := filepath.Join(base, "store")
+		g := &purgeGateT{parked: make(chan int, 1), release: make(chan int, 1)}
+		purgeGate = g
+		defer func() { purgeGate = nil }()
+		var idx bleve.Index
+		vrt.Free(func() {
+			var err error
+			idx, err = bleve.NewUsing(base, bleve.NewIndexMapping(), scorch.Name, scorch.Name, map[string]interface{}{
+				"numSnapshotsToKeep": k.keep, "eventCallbackName": "verif-c12-purge-gate",
+				"scorchMergePlanOptions": bx.CopyConfig(bx.AggressiveMergePlan),
+			})
+			if err != nil {
+				panic(err)
+			}
+		})
+		sc := bx.Scorch(idx)
+		monitorOn := true
+		checks := 0
+		monitor := func(label string) {
+			if !monitorOn || c.Failed() {
+				return
+			}
+			st, err := sc.VerifFileState()
+			if err != nil {
+				return
+			}
+			checks++
+			disk := zapFiles(store)
+			for _, f := range st.BoltFiles {
+				if !disk[f] {
+					c.Fail("missing:bolt-named-file", "at %s: %s is named by a snapshot committed in root.bolt (epochs %v) but is missing on disk", label, f, st.Epochs)
+					return
+				}
+			}
+			for _, f := range st.RootFiles {
+				if !disk[f] {
+					c.Fail("missing:current-root-file", "at %s: %s belongs to the current root (epoch %d) but is missing on disk", label, f, st.RootEpoch)
+					return
+				}
+			}
+		}
+		vrt.Hook = func(label string) {
+			if strings.HasPrefix(label, "fs:") || strings.HasPrefix(label, "pt:") {
+				monitor(label)
+			}
+		}
+		defer func() { vrt.Hook = nil }()
+		batch := func(j int) {
+			b := idx.NewBatch()
+			b.Index("a", map[string]interface{}{"seq": strconv.Itoa(j)})
+			b.Index(fmt.Sprintf("d%d", j), map[string]interface{}{"seq": strconv.Itoa(j)})
+			if err := idx.Batch(b); err != nil {
+				c.Fail("error:batch", "Batch: %v", err)
+			}
+		}
+		batch(1)
+		batch(2)
+		vrt.WaitIdle() // files of batches 1,2 merged and persisted
+		g.armed = true
+		batch(3)           // persisted and acknowledged; afterwards the persister parks before its purge
+		vrt.Recv(g.parked) // persister parked at the purger check
+		vrt.WaitIdle()     // the merger merges the files and introduces the merged segment (not persisted: persister parked)
+		vrt.Point("pt:merge-introduced-persister-parked")
+		var wg vrt.WaitGroup
+		wg.Add(1)
+		vrt.Go(func() { // a safe batch: introduced at once, acknowledged only after the persister runs again
+			defer wg.Done()
+			batch(4)
+		})
+		vrt.WaitIdle() // batch 4 introduced on top of the merged segment
+		vrt.Point("pt:batch-introduced-before-purge")
+		vrt.Send(g.release, 1) // the purge runs now, then the persister persists the new root
+		wg.Wait()
+		vrt.WaitIdle()
+		vrt.Point("pt:settled")
+		c.Observe(fmt.Sprintf("z%d", len(zapFiles(store))))
+		vrt.Free(func() {
+			monitorOn = false
+			c.Count("monitor_evaluations", checks)
+			if err := idx.Close(); err != nil {
+				c.Fail("error:close", "Close: %v", err)
+			}
+			// reopening must not fall back to older data: everything was acknowledged
+			re, err := bleve.Open(base)
+			if err != nil {
+				c.Fail("reopen-fails", "the index does not open again after a clean Close: %v", err)
+				return
+			}
+			if n, _ := re.DocCount(); n != 5 {
+				c.Fail("reopen-falls-back-to-older-data", "after a clean Close the reopened index holds %d documents, want 5 (a, d1..d4)", n)
+			}
+			re.Close()
+		})
+	}
+}
+
 // gatedDir is a backup target whose first GetWriter parks the copying thread until released: a slow
 // backup, expressed with scheduler primitives so that it is an ordinary, explorable wait.
 type gatedDir struct {
@@ -402,6 +525,7 @@ func Scenarios() []drv.Scenario {
 		mk(cfg{name: "writer+reader+two-overlapping-copies-keep1", keep: 1, batches: 4, copy: true, copies: 2}, d1r, d2),
 		mk(cfg{name: "unsafe-writer+reader+two-overlapping-copies-keep1", keep: 1, batches: 4, copy: true, copies: 2, unsafe: true}, d1r, d2),
 		{Name: "slow-overlapping-backups-unsafe-keep1", Body: bodySlow(cfg{keep: 1, batches: 3}), Quick: d1r, Thorough: d2, Class: "files", MaxSteps: 1500000},
+		{Name: "batch-introduced-between-merge-and-purge-keep1", Body: bodyPurgeGate(cfg{keep: 1}), Quick: d1r, Thorough: d2, Class: "files", MaxSteps: 1500000},
 		mk(cfg{name: "writer+reader-keep3", keep: 3, batches: 4}, nil, d1),
 		mk(cfg{name: "writer+reader-keep2-every-step", keep: 2, batches: 3, allStep: true}, nil, d1),
 	}
